@@ -69,9 +69,10 @@ def real_function(q):
     raise ImportError(q)
 
 
-def replay_function_vc(vc, con, sym_args, case):
+def replay_function_vc(vc, con, sym_args, case, model=None):
     """returns dict(input=..., observed=..., clause=..., holds=bool) or None if the model cannot be replayed"""
-    model = backends.get_model(vc)
+    if model is None:
+        model = backends.get_model(vc)
     if model is None:
         return None
     try:
